@@ -120,7 +120,19 @@ def oracle(case, ctx):
     for op in case["ops"]:
         kind = op["op"]
         c = model["cutoff"]
-        if kind == "predict":
+        if kind == "refit":
+            # fitting the same object again starts afresh, on all the data observed so far
+            u = series_of(model)
+            yy = mk(list(u.index), u.to_numpy(), ik)
+            r2 = sut(f.fit, yy.copy(), None, gen.build_fh(steps, "list") if fh_fit else None)
+            if isinstance(r2, Raised):
+                discs.append(D("refit_raised:%s@%s" % (r2.type, r2.where), "%s: %s" % (desc, r2.msg)))
+                break
+            model["fit_data"] = u
+            model["params_current"] = True
+            p = sut(f.predict, fh_arg())
+            discs += check_forecast(p, model, steps, desc, "predict_after_refit", sut(expected_forecast, None))
+        elif kind == "predict":
             p = sut(f.predict, fh_arg())
             discs += check_forecast(p, model, steps, desc, "predict", sut(expected_forecast, None))
         elif kind in ("update", "ups"):
@@ -336,12 +348,14 @@ def cases(draw):
     n = draw(st.integers(pools.min_length(spec, steps[-1]) + 3, pools.min_length(spec, steps[-1]) + 14))
     ops = []
     for _ in range(draw(st.integers(1, 6))):
-        t = draw(st.sampled_from(["update", "update", "update", "predict", "ups", "update_predict"]))
+        t = draw(st.sampled_from(["update", "update", "update", "predict", "ups", "update_predict", "refit"]))
         if t in ("update", "ups"):
             ops.append({"op": t, "k": draw(st.integers(1, 4)), "overlap": draw(st.sampled_from([0, 0, 1, 2, 3])),
                         "revise": draw(st.booleans()), "update_params": draw(st.sampled_from([True, True, False]))})
         elif t == "predict":
             ops.append({"op": "predict"})
+        elif t == "refit":
+            ops.append({"op": "refit"})
         else:
             wl = draw(st.integers(1, 4))
             m = draw(st.integers(wl + steps[-1], wl + steps[-1] + 6))
